@@ -710,7 +710,7 @@ pub fn run(tier: Tier) -> ! {
 
     // (b) grammar-level mutations of the generated documents and of the shipped mock.gsd
     let mut bases: Vec<String> = vec![render_doc(&full_doc(), &Lex::plain()), render_doc(&full_doc(), &Lex { case: 1, eq: 1, comment: 1, crlf: true, preamble: 2, cont: true })];
-    if let Ok(m) = std::fs::read_to_string("/repo/gsd-parser/tests/data/mock.gsd") {
+    if let Ok(m) = std::fs::read_to_string(format!("{}gsd-parser/tests/data/mock.gsd", repo_prefix())) {
         bases.push(m);
     } else {
         c.note("mock.gsd not found");
